@@ -501,3 +501,14 @@ MUTANTS += [
                 attacker_info.name = attacker_info.name + ' (no entry points)'""",
      'attach_attackers renames model attackers that have no valid entry point'),
 ]
+
+MUTANTS += [
+    ('compiler_skips_unreadable_include', ['C17'], MV,
+     """                    included_file = self.compiler.compile(value)
+""",
+     """                    try:
+                        included_file = self.compiler.compile(value)
+                    except OSError:
+                        continue
+""", 'an include that cannot be read is skipped instead of failing the compilation'),
+]
